@@ -481,7 +481,10 @@ def nasty():
     # deep nesting, at most 100 levels
     import string
     s += ['`' + string.punctuation.replace('`', '') + string.digits + '`', 'a `' + string.punctuation.replace('`', '') + string.digits + ' b` c',
-          '`|`', '`|!`', '`|!"\'=+`', '``` nosuchlanguage\na\n```', '```python\nprint(1)\n```', '~~~ c++ x\n~~~']
+          '`|`', '`|!`', '`|!"\'=+`', '``` nosuchlanguage\na\n```', '```python\nprint(1)\n```', '~~~ c++ x\n~~~',
+          # format-significant characters in every attribute position (a template formatted twice raises on them)
+          '```{r}\nx\n```', '~~~ {.py}\nx\n~~~', '```{}\n```', '```{0}\n```', '```%s\n```', '[a](/u "{x}")', '![a](/u "{0}")', '[a]({x})',
+          '<http://a/{x}>', '# {x} {}', '`{x}`', '[{x}][{}]\n\n[{x}]: /u "{inner}"', '| {x} | {} |\n|---|---|\n| {0} | %s |']
     for n in (10, 50, 100):
         s += ['>' * n, '>' * n + 'a', '> ' * n + 'a', '>' * n + '\n' + '>' * (n // 2) + 'a', '> ' * n + '- a', '- ' * n + 'a', '- ' * n,
               '* ' * n + 'a', '1. ' * n + 'a', '+ ' * (n // 2) + '> ' * (n // 2) + 'a', '> - ' * (n // 2) + 'a', '>- ' * (n // 2) + '```',
